@@ -1,7 +1,7 @@
 #!/bin/bash
 # usage: tools/verify_seed.sh <ID> [suite]   -- confirms a seeded change in a scratch worktree of /repo HEAD:
 #   demo exits 0 unchanged, exits 1 with the patch; with "suite" also runs the repo's test suite with the patch
-ID=$1; W=/tmp/sv-$ID
+ID=$1; W=/tmp/sv-$ID   # ID may be a seed directory name such as C02-2
 git -C /repo worktree remove --force $W 2>/dev/null
 git -C /repo worktree add -q --detach $W HEAD || exit 3
 cd $W
